@@ -697,10 +697,63 @@ static void wlInvoke() {
   }
 }
 
+// Deep, unbalanced recursion through the FIRST functor on a task set that stays loaded: the forked functor
+// is run inline (overloaded set) until the inline-depth limit is reached, after which it has to be queued
+// - exactly once.  Depth and load are both needed; balanced shallow recursions never get there.
+static void deepLevel(int depth, int maxDepth) {
+  int t0 = tagNew(2, depth), t1 = tagNew(2, depth);
+  int caller = sim_tid();
+  dispenso::parallel_invoke(
+      *gi->cts,
+      [t0, depth, maxDepth]() {
+        leaf(t0);
+        if (depth < maxDepth)
+          deepLevel(depth + 1, maxDepth);
+      },
+      [t1]() { leaf(t1); });
+  TagInfo& last = tag(t1);
+  if (last.finishes != 1 || last.start_tid != caller)
+    sim_fail("parallel_invoke:last-functor-not-on-caller:deep", "level %d: last functor finishes=%d tid=%d caller=%d", depth,
+             last.finishes, last.start_tid, caller);
+}
+static void wlInvokeDeep() {
+  tagsReset();
+  InvokeCtx ic;
+  gi = &ic;
+  int nThreads = range(1, 3);
+  int maxDepth = range(10, 70);
+  int parked = 2 * nThreads + range(0, 6);
+  sim_note("threads", nThreads);
+  sim_note("depth", maxDepth);
+  sim_note("parked", parked);
+  SimLatch release(1);
+  dispenso::ThreadPool pool((size_t)nThreads, (size_t)range(1, 2));
+  dispenso::ConcurrentTaskSet cts(pool, dispenso::ParentCascadeCancel::kOff, 1,
+                                  chance(1, 2) ? dispenso::TaskCost::kHeavy : dispenso::TaskCost::kLightweight);
+  ic.cts = &cts;
+  ic.maxDepth = maxDepth;
+  // keep the set above its inline threshold for the whole recursion
+  for (int i = 0; i < parked; ++i)
+    cts.schedule([&release]() { release.wait(); }, dispenso::ForceQueuingTag());
+  deepLevel(0, maxDepth);
+  release.countDown();
+  cts.wait();
+  for (int i = 0; i < tagCount(); ++i) {
+    TagInfo& t = tag(i);
+    if (t.starts != 1 || t.finishes != 1) {
+      char cls[96];
+      snprintf(cls, sizeof cls, "parallel_invoke:%s:deep", t.starts == 0 ? "lost" : (t.starts > 1 ? "dup" : "unfinished-at-wait"));
+      sim_fail(cls, "functor %d (level %d) starts=%d finishes=%d after wait()", i, (int)t.aux, t.starts, t.finishes);
+    }
+    tagObserve(i);
+  }
+}
+
 } // namespace
 
 HX_WORKLOAD("C02", "barrier", wlBarrier, SF_ALL, 4000000, 4000000, 1);
 HX_WORKLOAD("C04", "cancel", wlCancel, SF_ALL, 4000000, 4000000, 1);
 HX_WORKLOAD("C05", "throw", wlThrow, SF_ALL, 4000000, 4000000, 1);
 HX_WORKLOAD("C47", "taskset-fq", wlFQ, SF_ALL, 4000000, 4000000, 1);
-HX_WORKLOAD("C16", "invoke", wlInvoke, SF_ALL, 4000000, 4000000, 1);
+HX_WORKLOAD("C16", "invoke", wlInvoke, SF_ALL, 4000000, 4000000, 2);
+HX_WORKLOAD("C16", "invoke-deep", wlInvokeDeep, SF_ALL, 4000000, 4000000, 1);
